@@ -563,6 +563,13 @@ func (r *yieldRewriter) rewriteForStmt(
 	} else {
 		// can't declare variable in for-post, name conflict free
 		assert(!isDefineStmt(stmt.Post))
+		// but post mustn't access the variable declared in body,
+		// so isolate the scope of body when it declares something
+		if declaresVar(body.block.List) {
+			newBody := mkBlock(body.kind)
+			newBody.push(X.Block(body.block.List...), kindTrival)
+			body = newBody
+		}
 		body.markCombined()
 		r.rewriteStmt(stmt.Post, true, body)
 	}
